@@ -26,7 +26,7 @@ func init() {
 var profC11 = Profile{
 	MaxBars: 3, MinBars: 1, MaxSteps: 40, Refresh: []string{"autoinj", "autoinj", "manual", "none", "autort"}, QLens: []int{-1},
 	Pop: 15, Queue: 10, Rm: 20, AbortW: 5, TicksW: 5, Gets: 6, PostTerm: true, PostTermWait: true, Cancel: 20,
-	Fillers: []string{"tag"}, LateAdd: true, OnCompleteFill: 20, Faults: 12,
+	Fillers: []string{"tag"}, LateAdd: true, OnCompleteFill: 20, Faults: 12, AddAfterCancel: 50,
 }
 
 func genC11(t *rapid.T) interface{} {
@@ -79,7 +79,7 @@ func runC11(ci interface{}) Result {
 		dumpHang(sc, tr)
 		return r
 	}
-	r.Classes = append(r.Classes, "refresh:"+sc.Cfg.Refresh)
+	r.Classes = append(append(r.Classes, "refresh:"+sc.Cfg.Refresh), featureClasses(sc)...)
 	// getter observations in program order, then the reads after Wait
 	gets := map[int][]c11Obs{}
 	for _, g := range tr.Gets {
